@@ -85,6 +85,8 @@ def gen(rng, k=None):
 ADAPTIVE = []
 ASSEMBLE = []
 SPAN = []
+BEST = []
+import bestbasis_model
 import assemble_model
 import span_model
 ENTRY = []
@@ -141,6 +143,8 @@ def sample_stacks(ctx, target, directed=False):
                 ADAPTIVE.extend(prec.adaptive[:40])
             if len(ASSEMBLE) < 60:
                 ASSEMBLE.extend(prec.assemble[:3])
+            if len(BEST) < 24:
+                BEST.extend(prec.best[:3])
             if len(SPAN) < 20:
                 SPAN.extend(prec.span[:2])
             if len(a) <= 300 and len(PIPELINE) < 14:
@@ -183,6 +187,7 @@ def run(ctx):
     region_model.check(ctx, broken, REGION_REC.records)
     assemble_model.check(ctx, broken, ASSEMBLE)
     span_model.check(ctx, broken, SPAN)
+    bestbasis_model.check(ctx, broken, BEST)
     finder_helpers.pipeline_corr(ctx, broken, PIPELINE)
     if broken and not bad:
         bad, f2, f3 = sample_stacks(ctx, ctx.n(60, 300), directed=True)
